@@ -64,12 +64,111 @@ def _generic_alloc(shape, fill):
     return None
 
 
+class MaskIndex:
+    """result of np.where(cond) with one argument on a symbolic condition array: the set of positions where cond holds"""
+    def __init__(self, cond):
+        self.cond = cond
+    def __getitem__(self, k):
+        if k == 0 and self.cond.ndim == 1:
+            return self
+        raise Unsupported("component of np.where(cond) on symbolic data")
+
+
+class OA(_np.ndarray):
+    """numpy object array holding symbolic scalars (concrete shape)"""
+    def astype(self, t, *a, **k):
+        if t in (float, _np.float64, "float", "float64") or getattr(t, "__name__", "") in ("_b_float", "float64"):
+            return self
+        if t in (int, _np.int64, "int") or getattr(t, "__name__", "") in ("_b_int", "int64"):
+            out = _np.empty(self.shape, dtype=object).view(OA)
+            for i in _np.ndindex(self.shape):
+                v = _np.ndarray.__getitem__(self, i)
+                out[i] = sym.pyint(v) if isinstance(v, (SV, SB)) else int(v)
+            return out
+        if getattr(t, "__name__", "") in ("float32", "single"):
+            from .frames import to_f32
+            out = _np.empty(self.shape, dtype=object).view(OA)
+            for i in _np.ndindex(self.shape):
+                out[i] = to_f32(_np.ndarray.__getitem__(self, i))
+            return out
+        if t is object:
+            return self
+        raise Unsupported(f"astype({t}) of a symbolic array")
+
+    def __setitem__(self, key, v):
+        cond = None
+        if isinstance(key, MaskIndex):
+            cond = key.cond
+        elif isinstance(key, _np.ndarray) and key.dtype == object and key.shape == self.shape and key.size and all(isinstance(x, (SB, bool, _np.bool_)) for x in key.flat):
+            cond = key
+        elif isinstance(key, tuple) and len(key) == 1 and isinstance(key[0], MaskIndex):
+            cond = key[0].cond
+        if cond is not None:
+            if cond.shape != self.shape:
+                raise Unsupported("mask assignment with a mask of different shape")
+            vv = _np.broadcast_to(obj(v) if _has_sym(v) or isinstance(v, _np.ndarray) else _np.array(v, dtype=object), self.shape)
+            for i in _np.ndindex(self.shape):
+                c = cond[i]
+                old = _np.ndarray.__getitem__(self, i)
+                if isinstance(c, SB) and (getattr(old, "ang", None) is not None or getattr(vv[i], "ang", None) is not None):
+                    # angle-valued entries: fork the path instead of building an if-then-else (keeps the angle forms)
+                    _np.ndarray.__setitem__(self, i, vv[i] if bool(c) else old)
+                else:
+                    _np.ndarray.__setitem__(self, i, ite(c, vv[i], old) if isinstance(c, SB) else (vv[i] if c else old))
+            return
+        if isinstance(v, (RowArr, GVec)):
+            raise Unsupported("per-row generic value stored into a concrete-shape array")
+        _np.ndarray.__setitem__(self, key, v)
+
+    def __getitem__(self, key):
+        if isinstance(key, MaskIndex) or (isinstance(key, _np.ndarray) and key.dtype == object and key.size and any(isinstance(x, SB) for x in key.flat)):
+            raise Unsupported("selection of array elements by a symbolic mask (data-dependent shape)")
+        return _np.ndarray.__getitem__(self, key)
+
+    def __bool__(self):
+        if self.size == 1:
+            return bool(self.flat[0])
+        raise ModelRaise("ValueError", "The truth value of an array with more than one element is ambiguous")
+
+    def _cmp(self, o, f):
+        if isinstance(o, _Generic):
+            return NotImplemented
+        a, b = _np.broadcast_arrays(_np.asarray(self).view(_np.ndarray), _np.asarray(o, dtype=object) if not isinstance(o, _np.ndarray) else o)
+        out = _np.empty(a.shape, dtype=object)
+        for i in _np.ndindex(a.shape):
+            out[i] = f(a[i], b[i])
+        return out.view(OA)
+
+    def __lt__(self, o): return self._cmp(o, lambda x, y: x < y)
+    def __le__(self, o): return self._cmp(o, lambda x, y: x <= y)
+    def __gt__(self, o): return self._cmp(o, lambda x, y: x > y)
+    def __ge__(self, o): return self._cmp(o, lambda x, y: x >= y)
+    def __eq__(self, o): return self._cmp(o, lambda x, y: x == y)
+    def __ne__(self, o): return self._cmp(o, lambda x, y: x != y)
+    def __and__(self, o): return self._cmp(o, lambda x, y: x & y)
+    def __or__(self, o): return self._cmp(o, lambda x, y: x | y)
+    def __invert__(self):
+        out = _np.empty(self.shape, dtype=object)
+        for i in _np.ndindex(self.shape):
+            v = _np.ndarray.__getitem__(self, i)
+            out[i] = ~v if isinstance(v, SB) else (not v)
+        return out.view(OA)
+    __hash__ = None
+
+
+NATIVE_OK = {"power", "multiply", "add", "subtract", "divide", "true_divide", "negative", "transpose", "reshape", "squeeze", "expand_dims", "copy",
+             "ravel", "flip", "roll", "swapaxes", "moveaxis", "repeat", "mod", "remainder", "mean", "shape", "ndim", "size", "fliplr", "flipud", "rot90",
+             "array_equal", "broadcast_to", "atleast_3d", "take", "diag", "trace", "outer", "matmul", "tensordot", "cumsum", "prod", "append", "insert"}
+
+
 def obj(a):
     """object array from nested lists / arrays"""
-    if isinstance(a, _np.ndarray) and a.dtype == object:
+    if isinstance(a, OA):
         return a
+    if isinstance(a, _np.ndarray) and a.dtype == object:
+        return a.view(OA)
     if isinstance(a, _np.ndarray):
-        return a.astype(object)
+        return a.astype(object).view(OA)
     # build via shape discovery (np.array on lists of SV would try sequence protocol on SV)
     def shp(x):
         if isinstance(x, (list, tuple)):
@@ -79,7 +178,7 @@ def obj(a):
             return x.shape
         return ()
     s = shp(a)
-    out = _np.empty(s, dtype=object)
+    out = _np.empty(s, dtype=object).view(OA)
     if s == ():
         out[()] = a
         return out
@@ -107,7 +206,7 @@ def _elementwise(fn_sym, fn_np):
             return x._new([fn_sym(v) if isinstance(v, (SV, SB)) else fn_np(v) for v in x.vals])
         if isinstance(x, _np.ndarray) and x.dtype == object or (isinstance(x, (list, tuple)) and _has_sym(x)):
             a_ = obj(x)
-            out = _np.empty(a_.shape, dtype=object)
+            out = _np.empty(a_.shape, dtype=object).view(OA)
             for i in _np.ndindex(a_.shape):
                 v = a_[i]
                 out[i] = fn_sym(v) if isinstance(v, (SV, SB)) else fn_np(v)
@@ -142,6 +241,9 @@ class NP:
             return real
         def passthrough(*a, **k):
             if _has_sym(a) or _has_sym(list(k.values())):
+                if name in NATIVE_OK and not any(isinstance(x, _Generic) for x in a):
+                    r = real(*[obj(x) if _has_sym(x) and not isinstance(x, (SV, SB)) else x for x in a], **k)
+                    return r.view(OA) if isinstance(r, _np.ndarray) and r.dtype == object else r
                 raise Unsupported(f"np.{name} has no symbolic model")
             return real(*a, **k)
         passthrough.__name__ = name
@@ -152,38 +254,43 @@ class NP:
         g = _generic_alloc(shape, 0.0 if dtype in (float, None, _np.float64, _np.float32) else 0)
         if g is not None:
             return g
-        a = _np.empty(_shape(shape), dtype=object)
+        a = _np.empty(_shape(shape), dtype=object).view(OA)
         a.fill(0.0 if dtype in (float, None, _np.float64, _np.float32) else (False if dtype is bool else 0))
         return a
     def ones(self, shape, dtype=float, **k):
         g = _generic_alloc(shape, 1.0 if dtype in (float, None, _np.float64, _np.float32) else 1)
         if g is not None:
             return g
-        a = _np.empty(_shape(shape), dtype=object)
+        a = _np.empty(_shape(shape), dtype=object).view(OA)
         a.fill(1.0 if dtype in (float, None, _np.float64, _np.float32) else (True if dtype is bool else 1))
         return a
     def full(self, shape, v, **k):
         g = _generic_alloc(shape, v)
         if g is not None:
             return g
-        a = _np.empty(_shape(shape), dtype=object)
+        a = _np.empty(_shape(shape), dtype=object).view(OA)
         a.fill(v)
         return a
     def empty(self, shape, **k):
-        a = _np.empty(_shape(shape), dtype=object)
+        a = _np.empty(_shape(shape), dtype=object).view(OA)
         for i in _np.ndindex(a.shape):
             a[i] = Uninit()
         return a
     def zeros_like(self, x, **k):
         if isinstance(x, _np.ndarray): return self.zeros(x.shape)
         raise Unsupported("zeros_like of generic")
-    def array(self, x, dtype=None, **k):
+    def array(self, x, dtype=None, ndmin=0, **k):
         if isinstance(x, (RowArr, GVec)):
             return x
         if isinstance(x, GFrame):
             return x.to_numpy()
         if _has_sym(x):
-            return obj(x)
+            a = obj(x).copy().view(OA)
+            while a.ndim < ndmin:
+                a = a.reshape((1,) + a.shape)
+            return a
+        if ndmin:
+            k["ndmin"] = ndmin
         if isinstance(x, (SV,)):
             return x
         a = _np.array(x, dtype=dtype, **k)
@@ -237,14 +344,18 @@ class NP:
             return theory.arctan2(y, x)
         if _has_sym(y) or _has_sym(x):
             ya, xa = _np.broadcast_arrays(obj(y), obj(x))
-            out = _np.empty(ya.shape, dtype=object)
+            out = _np.empty(ya.shape, dtype=object).view(OA)
             for i in _np.ndindex(ya.shape):
                 out[i] = theory.arctan2(ya[i], xa[i]) if isinstance(ya[i], SV) or isinstance(xa[i], SV) else _np.arctan2(ya[i], xa[i])
             return out
         return _np.arctan2(y, x)
     def where(self, c, *ab):
         if not ab:
-            raise Unsupported("np.where(cond) on symbolic data") if _has_sym(c) else None
+            if isinstance(c, _np.ndarray) and c.dtype == object and any(isinstance(x, SB) for x in c.flat):
+                return MaskIndex(c) if c.ndim != 1 else (MaskIndex(c),)
+            if _has_sym(c):
+                raise Unsupported("np.where(cond) on symbolic data")
+            return _np.where(c)
         a, b = ab
         if isinstance(c, (SB,)):
             return ite(c, a, b)
@@ -254,7 +365,7 @@ class NP:
             return c._new(ite(c.val, av, bv))
         if _has_sym(c) or _has_sym(a) or _has_sym(b):
             ca, aa, ba = _np.broadcast_arrays(obj(c), obj(a), obj(b))
-            out = _np.empty(ca.shape, dtype=object)
+            out = _np.empty(ca.shape, dtype=object).view(OA)
             for i in _np.ndindex(ca.shape):
                 out[i] = ite(ca[i], aa[i], ba[i]) if isinstance(ca[i], SB) else (aa[i] if ca[i] else ba[i])
             return out
@@ -280,7 +391,7 @@ class NP:
                 g = a if isinstance(a, (RowArr, GVec)) else b
                 return g._bin(b if g is a else a, (lambda x, y: fs(x, y)))
             aa, ba = _np.broadcast_arrays(obj(a), obj(b))
-            out = _np.empty(aa.shape, dtype=object)
+            out = _np.empty(aa.shape, dtype=object).view(OA)
             for i in _np.ndindex(aa.shape):
                 out[i] = fs(aa[i], ba[i])
             return out
@@ -296,11 +407,13 @@ class NP:
             raise Unsupported("sum over rows")
         if _has_sym(x):
             a = obj(x)
-            return a.sum(axis=axis)
+            r = _np.ndarray.sum(a, axis=axis)
+            return r.view(OA) if isinstance(r, _np.ndarray) else r
         return _np.sum(x, axis=axis, **k)
     def dot(self, a, b):
         if _has_sym(a) or _has_sym(b):
-            return _np.dot(obj(a), obj(b))
+            r = _np.dot(obj(a), obj(b))
+            return r.view(OA) if isinstance(r, _np.ndarray) else r
         return _np.dot(a, b)
     def cross(self, a, b, **k):
         if _has_sym(a) or _has_sym(b):
@@ -309,6 +422,13 @@ class NP:
                 return obj([a[1] * b[2] - a[2] * b[1], a[2] * b[0] - a[0] * b[2], a[0] * b[1] - a[1] * b[0]])
             raise Unsupported("cross of non-3-vectors")
         return _np.cross(a, b, **k)
+    def einsum(self, spec, *ops):
+        if _has_sym(ops):
+            if spec.replace(" ", "") == "ij,ij->i" and not any(isinstance(o, _Generic) for o in ops):
+                a, b = obj(ops[0]), obj(ops[1])
+                return obj([sum((a[i, j] * b[i, j] for j in range(a.shape[1])), 0) for i in range(a.shape[0])])
+            raise Unsupported(f"einsum {spec} on symbolic data")
+        return _np.einsum(spec, *ops)
     def isscalar(self, x):
         return isinstance(x, (SV, SB)) or _np.isscalar(x)
     def isnan(self, x):
@@ -375,14 +495,14 @@ class NP:
                         s = s + a[i] * a[i]
                     return theory.sqrt(s) if isinstance(s, SV) else _np.sqrt(s)
                 if a.ndim == 2 and axis == 1:
-                    out = _np.empty(a.shape[0], dtype=object)
+                    out = _np.empty(a.shape[0], dtype=object).view(OA)
                     for i in range(a.shape[0]):
                         s = 0
                         for j in range(a.shape[1]): s = s + a[i, j] * a[i, j]
                         out[i] = theory.sqrt(s) if isinstance(s, SV) else _np.sqrt(s)
                     return out.reshape(-1, 1) if keepdims else out
                 if a.ndim == 2 and axis == 0:
-                    out = _np.empty(a.shape[1], dtype=object)
+                    out = _np.empty(a.shape[1], dtype=object).view(OA)
                     for j in range(a.shape[1]):
                         s = 0
                         for i in range(a.shape[0]): s = s + a[i, j] * a[i, j]
@@ -398,7 +518,25 @@ class NP:
             return _np.linalg.det(m)
     linalg = _Linalg()
     fft = _np.fft
-    random = _np.random
+
+    class _Random:
+        def __getattr__(self, k):
+            return getattr(_np.random, k)
+        def rand(self, *shape):
+            """np.random.rand: arbitrary values in [0,1) -- modelled as unconstrained symbolic numbers in that range"""
+            from .frames import space_for_count
+            cx = ctx()
+            if len(shape) == 1 and isinstance(shape[0], SV):
+                v = cx.fresh("rand")
+                cx.assume(z3.And(v >= 0, v < 1))
+                return GVec(SV(v), space_for_count(shape[0]))
+            out = _np.empty(tuple(int(s) for s in shape), dtype=object).view(OA)
+            for i in _np.ndindex(out.shape):
+                v = cx.fresh("rand")
+                cx.assume(z3.And(v >= 0, v < 1))
+                out[i] = SV(v)
+            return out
+    random = _Random()
 
 
 class FrobeniusNorm(_Generic):
@@ -418,6 +556,8 @@ class FrobeniusNorm(_Generic):
                  z3.And(g >= 0, g * g == sym.real(to_z3(s)) + other, other >= 0, z3.Implies(n == 1, other == 0)))
         self.g = SV(g)
         self.rest = SV(other)
+    def __scalar__(self):
+        return self.g
     def __rtruediv__(self, o):
         return o / self.g
     def __gt__(self, o): return self.g > o
